@@ -69,6 +69,16 @@ FUNCS = {
     "lp": dict(c="char lp(char n) { char r; r = 0; while (n) { r += 2; n--; } return r; }", params=[("lp_n", 8)], body=None, calls=[]),
     "er": dict(c="char er(char x) { for (Y = 0; Y < 4; Y++) { if (arr[Y] == x) return Y; } return 9; }", params=[("er_x", 8)], body=None, calls=[]),
     "sw": dict(c="char sw(char x) { switch (x) { case 0: return 5; case 1: c++; break; default: c = x; } return c; }", params=[("sw_x", 8)], body=None, calls=[]),
+    # a signed parameter followed by a plain one: s receives v zero-extended, ss receives u sign-extended
+    "ps": dict(c="void ps(signed char u, char v) { s = v; ss = u; }", params=[("ps_u", 8, True), ("ps_v", 8)],
+               body=[{"k": "expr", "e": {"k": "asg", "op": "=", "lhs": V("s"), "e": V("ps_v")}}, {"k": "expr", "e": {"k": "asg", "op": "=", "lhs": V("ss"), "e": V("ps_u")}}], calls=[]),
+    # > and <= tests (two-instruction sequences with a protected BEQ) inside functions that get inlined after constants are known
+    "cle": dict(c="void cle() { if (X <= 3) { c = 1; } else { c = 2; } }", params=[],
+                body=[{"k": "if", "c": {"k": "bin", "op": "<=", "l": V("X"), "r": N(3)}, "t": [{"k": "expr", "e": {"k": "asg", "op": "=", "lhs": V("c"), "e": N(1)}}],
+                       "e": [{"k": "expr", "e": {"k": "asg", "op": "=", "lhs": V("c"), "e": N(2)}}]}], calls=[]),
+    "cgt": dict(c="void cgt(char v) { if (v > 3) { c = 1; } else { c = 2; } }", params=[("cgt_v", 8)],
+                body=[{"k": "if", "c": {"k": "bin", "op": ">", "l": V("cgt_v"), "r": N(3)}, "t": [{"k": "expr", "e": {"k": "asg", "op": "=", "lhs": V("c"), "e": N(1)}}],
+                       "e": [{"k": "expr", "e": {"k": "asg", "op": "=", "lhs": V("c"), "e": N(2)}}]}], calls=[]),
     # the value returned is that of a postfix expression: the side effect must still happen
     "ri": dict(c="char ri() { return c++; }", params=[], body=[{"k": "return", "e": {"k": "inc", "pre": False, "d": 1, "lhs": V("c")}}], calls=[]),
     "rd2": dict(c="char rd2(char x) { return arr[x]--; }", params=[("rd2_x", 8)], body=[{"k": "return", "e": {"k": "inc", "pre": False, "d": -1, "lhs": {"k": "idx", "arr": "arr", "i": V("rd2_x")}}}], calls=[]),
